@@ -27,6 +27,7 @@ structure MState where
   interval : Nat
   timeout : Nat
   deadline : Option Nat      -- none: not monitoring, or a reset is in progress
+  alt : Option Nat           -- a deadline that a response arriving at that very instant has just replaced
   nextBeat : Option Nat
   up : Bool
   ok : Bool
@@ -70,18 +71,18 @@ def mStep (m0 : MState) (e : HEv) : MState :=
     | none => { m with ok := false }
   | .resp t =>
     match m.deadline with
-    | some _ => { m with deadline := some (t + m.timeout) }
+    | some d => { m with deadline := some (t + m.timeout), alt := if d = t then some d else none }
     | none => m
   | .reset t =>
     match m.deadline with
-    | some d => { m with deadline := none, ok := m.ok && decide (d = t) && m.up }
+    | some d => { m with deadline := none, alt := none, ok := m.ok && (decide (d = t) || decide (m.alt = some t)) && m.up }
     | none => { m with ok := false }
   | .resetDone t => { m with deadline := some (t + m.timeout) }
   | .stop _ => { m with deadline := none, nextBeat := none }
 
 /-- the recorded run satisfies C08 -/
 def c08 (interval timeout : Nat) (tr : List HEv) : Bool :=
-  (tr.foldl mStep { interval := interval, timeout := timeout, deadline := none, nextBeat := none,
+  (tr.foldl mStep { interval := interval, timeout := timeout, deadline := none, alt := none, nextBeat := none,
                     up := false, ok := true }).ok
 
 -- a silent console from the first heartbeat: requests at 0 and 2400, reset at 2640 (330 s)
